@@ -15,7 +15,7 @@ from props import common
 
 PROP = 'C11'
 FUNCS = ['Logic.appendWire', 'Wire.setSource', 'Wire.addSource', 'Wire.rename', 'Wire.reparent', 'Wire.reparentAndRename',
-         'Logic.__init__', 'Wire.__init__', 'OutPort.__init__', 'InPort.__init__']
+         'Logic.__init__', 'Wire.__init__', 'OutPort.__init__', 'InPort.__init__', 'InOutPort.__init__']
 DBG_FUNCS = ['checkPort', 'checkIntegrity']
 
 
@@ -186,12 +186,44 @@ def integrity(seed=0, **kw):
     return [{'oid': 'checkIntegrity::library-blocks#bounded', 'status': 'bounded-ok', 'bounded': True, 'evaluations': evals, 'function': 'checkIntegrity'}]
 
 
+def second_driver(**kw):
+    """every ordered pair of driver kinds on one ordinary wire: the second attachment must raise and the first driver stays"""
+    import py4hw
+    from py4hw.logic.bitwise import BidirBuf
+    evals = 0
+    def attach(kind, s, w, tag):
+        wd = w.getWidth()
+        if kind == 'Constant': return _q(py4hw.Constant, s, 'k' + tag, 1, w)
+        if kind == 'Buf': return _q(py4hw.Buf, s, 'b' + tag, s.wire('bi' + tag, wd), w)
+        if kind == 'Reg': return _q(py4hw.Reg, s, 'r' + tag, s.wire('ri' + tag, wd), w)
+        if kind == 'BidirBuf':      # the in/out port of a pin buffer on an ORDINARY wire drives it as well
+            return _q(BidirBuf, s, 'io' + tag, s.wire('pi' + tag, wd), s.wire('po' + tag, wd), s.wire('oe' + tag, 1), w)
+    kinds = ['Constant', 'Buf', 'Reg', 'BidirBuf']
+    for wd in (1, 8):
+        for k1 in kinds:
+            for k2 in kinds:
+                s = _q(py4hw.HWSystem); w = s.wire('w', wd)
+                attach(k1, s, w, '1')
+                first = w.getSource()
+                evals += 1
+                try:
+                    attach(k2, s, w, '2'); raised = False
+                except Exception:
+                    raised = True
+                if not raised or w.getSource() is not first or first is None:
+                    return [{'oid': 'drivers::second-driver-%s-after-%s@w=%d#bounded' % (k2, k1, wd), 'status': 'bounded-fail', 'bounded': True, 'evaluations': evals,
+                             'model': {'first': k1, 'second': k2, 'width': wd},
+                             'replay': {'reproduced': True, 'got': ('no error' if not raised else 'error') + ', driver afterwards: %s' % ('the first' if w.getSource() is first else 'changed'),
+                                        'expected': 'the second attachment raises and the first driver stays'}, 'function': 'OutPort / InOutPort.__init__, Wire.setSource'}]
+    return [{'oid': 'drivers::second-driver#bounded', 'status': 'bounded-ok', 'bounded': True, 'evaluations': evals, 'function': 'OutPort / InOutPort.__init__'}]
+
+
 def main(tier, seed, only=None):
     t0 = time.time()
     n = 40 if tier == 'quick' else 400
     items = [('props.C11:heap_item', dict(qual=q, timeout_s=20 if tier == 'quick' else 120)) for q in FUNCS + DBG_FUNCS]
     items += [('props.C11:construction', dict(seed=seed * 100 + k, n=n // 8)) for k in range(8)]
-    items += [('props.C11:integrity', dict(seed=seed))]
+    items += [('props.C11:integrity', dict(seed=seed)), ('props.C11:second_driver', {})]
     items = common.filter_only(items, only)
     res = run.run_items(items)
     return run.finish(PROP, tier, res, t0, level='proof', seed=seed,
@@ -201,7 +233,8 @@ def main(tier, seed, only=None):
                                    'keyword defaults are not modelled: every argument is arbitrary',
                                    'checkIntegrity: precondition "the source port of every wire is registered in its parent block\'s inPorts/outPorts" (what addOut / addIn establish; under it checkPort never raises) is assumed of the hierarchy, not proved of the construction API; the dict iteration order of children is a ghost key list; checkPortParent and the WARNING prints have no effect on the verdict (print is dropped); recursion is assumed to terminate (finite acyclic hierarchy)',
                                    common.dropped_note()],
-                      bounded_parts=[{'what': 'in addition to the heap proof of checkIntegrity: checkIntegrity on every library block of the composition registry (3 configurations each, inputs driven by constants), each with one single-fault variant (one input left undriven -> must raise) and one duplicated driver (must be refused, first driver kept)'},
+                      bounded_parts=[{'what': 'second driver: every ordered pair of {Constant, Buf, Reg, BidirBuf pin} on one ordinary wire, widths 1 and 8: the second attachment raises, the first driver stays'},
+                                     {'what': 'in addition to the heap proof of checkIntegrity: checkIntegrity on every library block of the composition registry (3 configurations each, inputs driven by constants), each with one single-fault variant (one input left undriven -> must raise) and one duplicated driver (must be refused, first driver kept)'},
                                      {'what': 'random construction sequences (wire creation, block instantiation, rename / reparent / reparentAndRename with clashing names, drivers): failing calls must leave all tables unchanged', 'sequences': n}],
                       trusted_extra=['heap-mode VC generator pvc/heap.py (maps as uninterpreted functions with guarded point updates, quantified frame conditions)'],
                       canary_ok=work.canary(), min_obligations=60)
